@@ -3,7 +3,7 @@ from __future__ import annotations
 
 from typing import Dict, List, Optional, Tuple
 
-from .. import decoders, render, sym
+from .. import normal, decoders, render, sym
 from ..model import AnalysisError, Repo
 from ..report import Run
 from ..sym import T, const, param
@@ -165,7 +165,7 @@ def check(repo: Repo, run: Run) -> None:
     # parse_vnodes selects lookup records by name from the supplied table
     pv = repo.method("traces_parser", "TracesParser", "parse_vnodes")
     prec = interp.run(tp.module, pv, self_cls=tp)
-    comp = [x for x in sym.walk(prec.return_term()) if x.op == "comp"]
+    comp = [x for x in sym.walk(normal.accum_to_comp(prec, prec.return_term())) if x.op == "comp"]
     okf = False
     for x in comp:
         elemvar, it, conds = x.a[2][0]
@@ -186,6 +186,33 @@ def check(repo: Repo, run: Run) -> None:
     run.ob("R1", "pykdebugparser.traces_parser", "TracesParser.parse_vnodes", "lookup records = window records named VFS_LOOKUP", okf,
            "parse_vnodes does not select exactly the window's records whose table name is VFS_LOOKUP, in order", nontrivial=False)
 
+    # parse_vnode(events) = the first of parse_vnodes(events), or the empty Vnode when there is none
+    pvn = repo.method("traces_parser", "TracesParser", "parse_vnode")
+    nrec = interp.run(tp.module, pvn, self_cls=tp)
+    evp = param(pvn.args.args[1].arg)
+    all_lookups = interp.run(tp.module, pv, {pv.args.args[1].arg: evp}, self_cls=tp).return_term()
+    opaque_all = T("call", (T("attr", (param("self"), "parse_vnodes")), (evp,), ()))
+    rets = [r for r in nrec.returns if r.kind == "return"]
+    firsts, fallbacks, strange = [], [], []
+    for r_ in rets:
+        v = r_.value
+        for pc_, leaf in normal.guarded_leaves(v):
+            base = leaf.a[0] if leaf.op == "sub" and leaf.a[1] == const(0) else None
+            if base is not None and (base == opaque_all or sym.canon(base) == sym.canon(all_lookups)):
+                firsts.append(r_)
+            elif leaf.op == "call" and leaf.a[0].op == "global" and leaf.a[0].a[0].endswith(".Vnode") and (
+                    leaf.a[1] == (T("list", ((),)), const(0), const("")) or
+                    (not leaf.a[1] and dict(leaf.a[2]) == {"ktraces": T("list", ((),)), "vnode_id": const(0), "path": const("")})):
+                fallbacks.append(r_)
+            else:
+                strange.append(leaf)
+    okv = bool(firsts) and not strange
+    run.ob("R1", "pykdebugparser.traces_parser", "TracesParser.parse_vnode", "first lookup = parse_vnodes(events)[0], else the empty Vnode", okv,
+           "" if okv else "parse_vnode does not return the first element of parse_vnodes(events) (all lookup records of the window, "
+                          "reassembled in order) or the empty Vnode: "
+                          + (f"it returns {sym.pretty(strange[0])[:120]}" if strange else "no such return"),
+           line=pvn.lineno, witness="a lookup whose records are separated by an unrelated record of the same thread")
+
     # ------------------------------------------------------------------ R2
     D = decoders.Decoders(repo)
     D.interp = interp
@@ -195,7 +222,7 @@ def check(repo: Repo, run: Run) -> None:
         uses_bits = any(sym.contains(t, EVENTS) and x.op == "attr" and x.a[1] == "func_qualifier"
                         for t in _all_terms(d.rec) for x in sym.walk(t))
         joins = any(x.op == "comp" and x.a[1].op == "attr" and x.a[1].a[1] == "data" and x.a[2][0][1] == EVENTS
-                    for t in _all_terms(d.rec) for x in sym.walk(t))
+                    for t in _all_terms(d.rec) for x in sym.walk(normal.accum_to_comp(d.rec, sym.resolve_widens(d.rec, t))))
         via_vnode = d.ret.op == "new" and any(sym.contains(v, T("call", (T("attr", (PARSER, "parse_vnode")), (EVENTS,), ())))
                                               for _, v in d.ret.a[1]) and e.family == "fsystem"
         if uses_bits or joins or via_vnode:
